@@ -134,10 +134,12 @@ def mixerOff (p : Player) (w : World) : Player × World :=
 /-- libxmp_virt_on.  `maxvoc` / `virt_channels` are set before anything is allocated and stay set
 when the function fails: the per-voice / per-channel tables then have that many (unreadable)
 entries although `voice_array` / `xc_data` are NULL. -/
-def virtOn (pp : StartParams) (p : Player) (w : World) : Int × Player × World :=
-  let p := { p with maxvoc := pp.maxvoc, virtChannels := pp.virtch,
-                    paula := List.replicate pp.maxvoc none,
-                    chanExtra := if pp.extras then List.replicate pp.virtch none else [] }
+def virtInit (pp : StartParams) (p : Player) : Player :=
+  { p with maxvoc := pp.maxvoc, virtChannels := pp.virtch,
+           paula := List.replicate pp.maxvoc none,
+           chanExtra := if pp.extras then List.replicate pp.virtch none else [] }
+
+def virtAlloc (pp : StartParams) (p : Player) (w : World) : Int × Player × World :=
   match w.alloc ⟨.voiceArray, 0⟩ with
   | (none, w1) => (-1, { p with voiceArray := none }, w1)
   | (some va, w1) =>
@@ -151,6 +153,9 @@ def virtOn (pp : StartParams) (p : Player) (w : World) : Int × Player × World 
     else
       -- err2
       (-1, { p with voiceArray := none }, (freeAll r.1 r.2.2).free (some va))
+
+def virtOn (pp : StartParams) (p : Player) (w : World) : Int × Player × World :=
+  virtAlloc pp (virtInit pp p) w
 
 /-- libxmp_virt_off; walking `voice_array[i].paula` through a NULL `voice_array` is invalid -/
 def virtOff (p : Player) (w : World) : Player × World :=
@@ -396,8 +401,7 @@ def releaseModExtra (e : ModExtra) (w : World) : World :=
 def freeIns : List (Option Tok) → List (Option Tok) → World → World
   | s :: ss, e :: es, w => freeIns ss es ((w.free s).free e)
   | s :: ss, [], w => freeIns ss [] (w.free s)
-  | [], e :: es, w => freeIns [] es (w.free e)
-  | [], [], w => w
+  | [], es, w => freeAll es w
 
 /-- xmp_release_module -/
 def releaseModule (c : MCtx) (w : World) : MCtx × World :=
@@ -451,7 +455,7 @@ def loadModule (out : LoadOutcome) (built : Module) (c : MCtx) (w : World) : Int
   -- libxmp_load_prologue resets the module; the loader then builds `built`;
   -- dirname/basename were set by the caller and stay
   let c1 : MCtx := { c with module := { built with dirname := c.module.dirname, basename := c.module.basename } }
-  let w1 := { w with live := (built.toks.filter (fun t => t.kind ≠ .dirname ∧ t.kind ≠ .basename)) ++ w.live }
+  let w1 := { w with live := built.toks ++ w.live }
   match out with
   | .ok => (0, { c1 with state := .loaded }, w1)
   | .formatFail => let r := releaseModule c1 w1; (errFormat, r.1, r.2)
